@@ -5,11 +5,20 @@
    Events:  [e |-> "ver", v]        the firmware reported protocol version v (fed through
                                     PlatformService._platform_callback)
             [e |-> "xmode", v]      Commander.set_client_xmode(v)
-            [e |-> "call", cmd, args, out, pks]   one API call and what reached the link
+            [e |-> "call", cmd, args, out, pks, nq]   one API call; pks = what the link serialised of this
+                                    call's packet objects before the call returned, nq = how many of its
+                                    packet objects the link still keeps (0 on a link that serialises at once)
             [e |-> "hdr", port, chan, h]          a CRTPPacket given port/channel, header byte h
+            [e |-> "link", v]       a link of kind v ("now" | "later") is attached
+            [e |-> "ser", pk]       the "later" link serialises the oldest packet object it keeps: pk is
+                                    what that object holds at this moment = what goes on the wire for the
+                                    call that handed it over (the link is FIFO)
 
-   monitor  (the verdict): CommandsProps evaluated on every call / header event; nothing of the
-            design spec is assumed.  The version and x-mode in force are rebuilt from the events.
+   monitor  (the verdict): CommandsProps evaluated on every emission / header event; nothing of the
+            design spec is assumed.  The version and x-mode in force are rebuilt from the events.  An
+            emission is judged when it is complete: at the call event when nq = 0, otherwise when the
+            last of its packet objects has been serialised (mpend: the calls still waiting, oldest first;
+            the verdict position is the call event).
    conform  (the binding): the same event must be the step the design spec Commands takes:
             Call(cmd, args) must produce exactly the recorded outcome and bytes. *)
 EXTENDS Integers, Sequences, FiniteSets, TLC, Json, IOUtils
@@ -17,9 +26,9 @@ EXTENDS Integers, Sequences, FiniteSets, TLC, Json, IOUtils
 Traces == JsonDeserialize(IOEnv.TRACE_FILE)
 
 VARIABLES tid, l,
-          mver, mxmode, bad, badAt, badField,     \* monitor
+          mver, mxmode, mpend, bad, badAt, badField,     \* monitor
           conf, confAt,                           \* conformance verdict
-          ver, xmode, last                        \* design-spec variables
+          ver, xmode, link, building, pend, heap, last     \* design-spec variables
 
 T == Traces[tid]
 Versions == -1..255
@@ -27,59 +36,87 @@ Cmds == {}             \* unused by the actions
 ArgSets == <<>>        \* unused by the actions
 HdrPorts == 0..15
 HdrChans == 0..3
+Links == {"now", "later"}
+Cap == 1
 Chained == TRUE
 Bug == "none"
 
 D == INSTANCE Commands
 P == INSTANCE CommandsProps
 
-specvars == <<ver, xmode, last>>
+specvars == <<ver, xmode, link, building, pend, heap, last>>
 Ev == T.ev[l]
 
 Init == /\ tid \in 1..Len(Traces)
         /\ l = 1
         /\ mver = Traces[tid].ver0 /\ mxmode = Traces[tid].xmode0
+        /\ mpend = <<>>
         /\ bad = "ok" /\ badAt = 0 /\ badField = 0
         /\ conf = TRUE /\ confAt = 0
         /\ ver = Traces[tid].ver0 /\ xmode = Traces[tid].xmode0 /\ last = D!None
+        /\ link = "now" /\ building = D!NoCall /\ pend = <<>> /\ heap = [i \in 1..(Cap + 2) |-> D!NoPk]
 
 Conform(A) == IF conf /\ ENABLED A
               THEN A /\ UNCHANGED <<conf, confAt>>
               ELSE /\ conf' = FALSE /\ confAt' = (IF conf THEN l ELSE confAt)
                    /\ UNCHANGED specvars
 
-Fail(c, f) == IF bad = "ok" /\ c # "ok" THEN bad' = c /\ badAt' = l /\ badField' = f
-              ELSE UNCHANGED <<bad, badAt, badField>>
+FailAt(c, f, at) == IF bad = "ok" /\ c # "ok" THEN bad' = c /\ badAt' = at /\ badField' = f
+                    ELSE UNCHANGED <<bad, badAt, badField>>
+Fail(c, f) == FailAt(c, f, l)
 
 MVer == /\ Ev.e = "ver"
-        /\ mver' = Ev.v /\ UNCHANGED <<mxmode, bad, badAt, badField>>
+        /\ mver' = Ev.v /\ UNCHANGED <<mxmode, mpend, bad, badAt, badField>>
         /\ Conform(D!SetVersion(Ev.v))
 
 MXMode == /\ Ev.e = "xmode"
-          /\ mxmode' = Ev.v /\ UNCHANGED <<mver, bad, badAt, badField>>
+          /\ mxmode' = Ev.v /\ UNCHANGED <<mver, mpend, bad, badAt, badField>>
           /\ Conform(D!SetXMode(Ev.v))
+
+MLink == /\ Ev.e = "link"
+         /\ UNCHANGED <<mver, mxmode, mpend, bad, badAt, badField>>
+         /\ Conform(D!SetLink(Ev.v))
 
 MCall == /\ Ev.e = "call"
          /\ LET r == [cmd |-> Ev.cmd, ver |-> mver, xmode |-> mxmode, args |-> Ev.args,
                       out |-> Ev.out, pks |-> Ev.pks]
-            IN Fail(P!EmissionClause(r), P!EmissionField(r))
+            IN IF Ev.nq = 0
+               THEN Fail(P!EmissionClause(r), P!EmissionField(r)) /\ UNCHANGED mpend
+               ELSE /\ mpend' = Append(mpend, [r |-> r, need |-> Ev.nq, at |-> l])
+                    /\ UNCHANGED <<bad, badAt, badField>>
          /\ UNCHANGED <<mver, mxmode>>
-         /\ Conform(D!Call(Ev.cmd, Ev.args) /\ last'.out = Ev.out /\ last'.pks = Ev.pks)
+         /\ Conform(\/ D!Call(Ev.cmd, Ev.args) /\ last'.out = Ev.out /\ last'.pks = Ev.pks /\ Ev.nq = 0
+                    \/ /\ D!CallLater(Ev.cmd, Ev.args) /\ last'.out = Ev.out /\ Ev.pks = <<>>
+                       /\ Ev.nq = (IF last'.kind = "queued" THEN 1 ELSE 0))
+
+\* the oldest waiting call gets the packet; complete -> judged (a packet nobody waits for cannot be
+\* recorded by the harness's link; it would only stop the conformance)
+MSer == /\ Ev.e = "ser"
+        /\ IF mpend = <<>> THEN UNCHANGED <<mpend, bad, badAt, badField>>
+           ELSE LET hd == mpend[1]
+                    r2 == [hd.r EXCEPT !.pks = Append(@, Ev.pk)]
+                IN IF hd.need <= 1
+                   THEN /\ FailAt(P!EmissionClause(r2), P!EmissionField(r2), hd.at)
+                        /\ mpend' = Tail(mpend)
+                   ELSE /\ mpend' = [mpend EXCEPT ![1] = [r |-> r2, need |-> hd.need - 1, at |-> hd.at]]
+                        /\ UNCHANGED <<bad, badAt, badField>>
+        /\ UNCHANGED <<mver, mxmode>>
+        /\ Conform(D!Ser /\ last'.pks = <<Ev.pk>> /\ mpend # <<>>)
 
 MHdr == /\ Ev.e = "hdr"
         /\ Fail(P!HeaderClause(Ev.port, Ev.chan, Ev.h), 0)
-        /\ UNCHANGED <<mver, mxmode>>
+        /\ UNCHANGED <<mver, mxmode, mpend>>
         /\ Conform(D!MakeHeader(Ev.port, Ev.chan) /\ last'.h = Ev.h)
 
 Step == /\ l <= Len(T.ev)
         /\ l' = l + 1 /\ UNCHANGED tid
-        /\ (MVer \/ MXMode \/ MCall \/ MHdr)
+        /\ (MVer \/ MXMode \/ MLink \/ MCall \/ MSer \/ MHdr)
 
 Finish == /\ l = Len(T.ev) + 1
           /\ l' = l + 1
           /\ PrintT(<<"VERDICT", T.id, bad, badAt, conf, confAt, badField>>)
-          /\ UNCHANGED <<tid, mver, mxmode, bad, badAt, badField, conf, confAt, specvars>>
+          /\ UNCHANGED <<tid, mver, mxmode, mpend, bad, badAt, badField, conf, confAt, specvars>>
 
 Next == Step \/ Finish
-Spec == Init /\ [][Next]_<<tid, l, mver, mxmode, bad, badAt, badField, conf, confAt, specvars>>
+Spec == Init /\ [][Next]_<<tid, l, mver, mxmode, mpend, bad, badAt, badField, conf, confAt, specvars>>
 =============================================================================
